@@ -84,6 +84,11 @@ CHECKS = {
     text="TLC exports 651 formula command lines (every formula helper with a documented library generator, every option subset, small parameters, named and planted graphs), 68 transformation invocations and 8 output-option sets with the library call each stands for. Every command is run through cnfgen (and pbgen) with --seed and through the named library generator with the same seed and the graphs loaded from the file the command line saved; transformation chains of length 1-3, output options and kthlist2pebbling vs peb are compared the same way. TLC decides equality of formula class, variable count, names and the multiset of clauses / constraints.",
     note="Trusted: CLI driver (in-process cli(mode='formula')), name -> callable resolution, mirroring of --plant's random assignment, projection, TLC. Random tseitin charge patterns and the 'N d' random-regular shortcuts are not in the table.",
     ref="DESIGN.md §4 C17"),
+ "C18": dict(
+    technique="pipeline state machine (Cli.tla) with outcome invariants model-checked by TLC; abstract argument vectors enumerated by TLC (CliArgs.tla, spec -> code test generation) concretised and run as fresh processes; observed runs judged by TLC against the machine's terminal outcomes using the strict DIMACS / OPB readers of DimacsText.tla and OpbLatexIO.tla (JudgeCli.tla)",
+    text="TLC checks on the pipeline machine that nothing is written before the Write stage, that Write is atomic with respect to failure and that an error is shielded, for all four tools and formats. CliArgs.tla yields ~3.8k argument vectors: every sub-command's valid example in every output format and with every option; each positional argument replaced by each value class (negative, 0, 1, big, huge, float, word, empty, '+3', '1e2', hex; for graph and file arguments: missing file, directory, empty / garbage / truncated / wrong-type file, unknown extension, malformed or incomplete specification, bad or impossible modifier, unwritable save target, closed stdin, blank lines); and structural perturbations (missing / extra argument, unknown option, dangling or unknown -T, bad output format, help, bad seed, no sub-command, output to a directory), for cnfgen, pbgen, cnfshuffle and kthlist2pebbling. Each is run as a process; TLC decides that the run is success (exit 0, complete formula accepted by the strict reader, valid examples must succeed), help, or a shielded command line error - never a traceback, exit 0 without a formula, partial output or unshielded text.",
+    note="Trusted: concretisation of value classes, process runner (cwd=/repo, stdin closed, 25 s and 3 GB limits; runs hitting a limit are counted, not judged), the lexers of c06/c12, TLC. LaTeX output has no strict reader (only 'something was written'). Quick tier samples ~1.2k vectors, thorough runs all.",
+    ref="DESIGN.md §4 C18"),
  "C19": dict(
     technique="TLA+ object-pool machine (Provenance.tla: Transform / AddClause / AddEntry) with NoAlias and the header rule model-checked by TLC; snapshots of inputs and arguments recorded around real calls judged by TLC (JudgeProvenance.tla)",
     text="TLC checks on all chains of bounded length that a step changes at most the object it names and that a new object's header is its parent's header plus one entry 'transformation k' with k least unused (also for headers that already contain numbered entries). Every real transformation (15 substitution/lifting/flip/compression kinds and shuffle) alone and in random chains of 2-3 is applied to formulas with names, headers, empty clauses, missing description: the input is snapshotted before the call, after it, and after the result has been mutated (clause, header entries, variable count), and the result header is checked against the rule; every graph, literal list (all builders, both classes, also failing calls), constraint, charges, shift pattern, planted assignments and explicit shuffle arguments are snapshotted before/after.",
